@@ -154,6 +154,36 @@ def gen(tier, rng):
     return cases
 
 
+def api_cases(tier, rng):
+    """every entry point x every pair of pixel types x equal / different sizes: the answer must be in Api!Answers and a
+    rejected call must leave the destination alone"""
+    cases = []
+    for op in ("resize", "mul", "div", "map", "convert"):
+        for s in rz.ALL_PT:
+            for d in rz.ALL_PT:
+                for same in (1, 0):
+                    if tier == "quick" and op in ("mul", "div") and s != d and rz.pick(len(cases), 601, [0, 1, 1]):
+                        continue
+                    sw, sh = (3, 2)
+                    dw, dh = (3, 2) if same else (2, 3)
+                    if op == "resize" and not same:
+                        dw, dh = 5, 4
+                    c = rz.img_case(op, d, dw, dh, src_pt=s, sw=sw, sh=sh, src_c={"g": "rand", "seed": len(cases), "flo": 0.0, "fhi": 1.0},
+                                    dst_lay={"k": "crop_mut", "pad": [1, 1, 1, 1]}, log=("dst", "dst0"), chk=(), cpu=rz.pick(len(cases), 602, rz.CPUS),
+                                    mapper="srgb" if op == "map" else None, direction="f")
+                    if op == "resize":
+                        c["opt"] = {"alg": "conv", "filter": "Bilinear"}
+                    c["echo"] = {"op": op, "src": s, "dst": d, "same": same}
+                    cases.append(c)
+    for op in ("mul_inplace", "div_inplace", "map_inplace"):
+        for d in rz.ALL_PT:
+            c = rz.img_case(op, d, 3, 2, dst_c={"g": "rand", "seed": len(cases), "flo": 0.0, "fhi": 1.0}, dst_lay={"k": "crop_mut", "pad": [1, 1, 1, 1]},
+                            log=("dst", "dst0"), chk=(), mapper="gamma" if op == "map_inplace" else None, direction="b")
+            c["echo"] = {"op": op, "src": d, "dst": d, "same": 1}
+            cases.append(c)
+    return cases
+
+
 def report(res, prop, bad):
     for (c, r, reason) in bad:
         d = rz.describe(c)
@@ -176,6 +206,26 @@ def run(res, tier, seed):
     cases = gen(tier, rng)
     bad, recs = rz.run_resize_trace(res, "c05", cases)
     report(res, "C05", bad)
+    # entry-point decision tables (Api.tla) over all pairs of pixel types
+    acases = api_cases(tier, rng)
+    for i, c in enumerate(acases):
+        c["id"] = i
+    binary = vlib.build_harness("release")
+    wd = vlib.workdir("c05_api")
+    arecs, tpath = vlib.run_harness(binary, [rz.strip(c) for c in acases], wd)
+    import json
+    with open(tpath, "w") as f:
+        for c, r in zip(acases, arecs):
+            r = dict(r)
+            r["echo"] = c["echo"]
+            f.write(json.dumps(r, separators=(",", ":")) + "\n")
+    tr = vlib.run_tlc_trace("TraceApi", tpath)
+    res.add_trace(tr, len(acases), "TraceApi")
+    for (cid, reason) in tr["bad"]:
+        c = acases[cid]
+        res.violation(what="C05 api " + reason, reason=reason, op=c["op"], src_pt=c["echo"]["src"], dst_pt=c["echo"]["dst"], same_size=c["echo"]["same"],
+                      ret=arecs[cid].get("ret"))
+    res.cov["api_decision_cases"] = len(acases)
     res.samples = [rz.describe(c) for c in (cases[0], cases[len(cases) // 2], cases[-1])]
     res.cov["cases"] = len(cases)
     res.assumptions += ["outside bytes are compared through two 31-bit digests of the complete surroundings / spare capacity",
